@@ -178,6 +178,8 @@ class dotdict_base( object ):
                 # If indexing used in path down to target, must be pre-existing values
                 target          = eval( mine, {'__builtins__':{}}, self )
             else:
+                if mine in self.__invalid_keys__ or mine.startswith( '__' ):
+                    raise KeyError( "A dotdict cannot support insertion of item/attribute with name {!r}".format( mine ))
                 target          = super( dotdict_base, self ).setdefault( mine, dotdict() )
             if not isinstance( target, dotdict_base ):
                 raise KeyError( 'cannot set "%s" in "%s" (%r)' % ( rest, mine, target ))
